@@ -77,12 +77,17 @@ SESSION_PROG = [
     b'10 A$="abcdefgh"',
     b'20 B$=LEFT$(S$,L%)',
     b'30 Z$=MID$(B$,P%)',
-    b'40 C$=T$+""',
+    b'35 IF G0% THEN F=FRE("")',
+    b'40 C$=T$+"": W$=S$',
     b'50 IF G1% THEN F=FRE("")',
     b'60 D$=B$+C$+(Z$+LEFT$(T$,1+0*FRE("")))',
+    # under memory pressure: collect, then pad string space so that exactly R% bytes stay free
+    b'65 IF M%>0 THEN F=FRE(""): PAD$=STRING$(F-R%,"p")',
+    b'66 S$=""',
     b'70 MID$(A$,K%)=B$',
+    b'75 PAD$=""',
     b'80 IF G3% THEN F=FRE("")',
-    b'90 E$=A$+Z$: W$=S$: S$="": T$=T$+"!"',
+    b'90 E$=A$+Z$: T$=T$+"!"',
     b'100 IF G1% THEN F=FRE("")',
     b'110 V$=D$+E$: OK%=1',
 ]
@@ -96,24 +101,29 @@ def body_session(h):
     impl = session.mk_impl(h, max_memory=8000) if h.params['tight'] else session.mk_impl(h)
     for line in SESSION_PROG:
         impl.execute(line)
-    impl.execute(b'L%=0:P%=0:K%=0:G1%=0:G3%=0:OK%=0:M%=0:F=0:I%=0')
+    impl.execute(b'L%=0:P%=0:K%=0:G0%=0:G1%=0:G3%=0:OK%=0:M%=0:R%=0:F=0:I%=0')
     # every variable exists before memory is filled, so that only string space is needed afterwards
-    impl.execute(b'A$="":B$="":C$="":D$="":E$="":V$="":W$="":Z$="":S$="":T$=""')
+    impl.execute(b'Z$="":A$="":B$="":C$="":D$="":E$="":V$="":W$="":S$="":T$="":PAD$=""')
     L = h.choice('L', [0, 2, 6])
     P = h.choice('P', [1, 2, 3, 7])
     K = h.choice('K', [1, 4, 8])
+    G0 = h.choice('G0', [0, 1])
     G1 = h.choice('G1', [0, 1])
+    R = h.choice('R', [3, 20]) if h.params['tight'] else 0
     G3 = h.choice('G3', [0, 1])
     s = h.bytes('s', 6)
     t = h.bytes('t', 3)
     impl.set_variable(b'S$', s)
     impl.set_variable(b'T$', t)
-    impl.execute(b'L%%=%d:P%%=%d:K%%=%d:G1%%=%d:G3%%=%d' % (L, P, K, G1, G3))
+    impl.execute(b'L%%=%d:P%%=%d:K%%=%d:G0%%=%d:G1%%=%d:G3%%=%d:R%%=%d' % (L, P, K, G0, G1, G3, R))
     if h.params['tight']:
         impl.execute(b'M%%=%d' % h.params['tight'])
         for line in FILL:
             impl.execute(line)
-    impl.execute(b'GOTO 10')
+    res = h.call(impl.execute, b'GOTO 10')
+    h.require('no-host-exception', res[0] == 'ok', res)
+    if res[0] != 'ok':
+        return [res[0]]
     h.require('program-completed', s_and(impl.interpreter.error_num == 0, s16(session.peek_raw(impl, b'OK%')) == 1),
               impl.interpreter.error_num)
     # reference with Python lists
@@ -126,7 +136,7 @@ def body_session(h):
     n = min(len(B), len(A) - K + 1)
     A2 = A[:K - 1] + B[:n] + A[K - 1 + n:]
     E = A2 + Z
-    want = {b'A$': A2, b'B$': B, b'Z$': Z, b'C$': C, b'D$': D, b'E$': E, b'W$': S, b'S$': [],
+    want = {b'A$': A2, b'B$': B, b'Z$': Z, b'C$': C, b'D$': D, b'E$': E, b'W$': S, b'S$': [], b'PAD$': [],
             b'T$': T + [33], b'V$': D + E}
     obs = []
     for name in sorted(want):
